@@ -14,6 +14,7 @@ def _state(h):
 
 def run(ctx):
     ok, res = core.proof_step(ctx)
+    dbgen.set_workdir(ctx.workdir)
     rng = ctx.rng
     found_input = False
     dist = {'base_histories': 0, 'fault_ops': 0, 'by_fault': {}, 'batch_sizes': {}, 'positions': {}, 'impl_refused': 0, 'kinds': {}}
@@ -64,9 +65,11 @@ def run(ctx):
         other_bits = rng.choice([b for b in (8, 16, 1024, 2 ** 32) if b != d.bits])
         other_level = rng.choice([l for l in (-1, 5, 0, None) if l != d.level])
         targets = [t]
-        if rng.random() < 0.4:          # also an empty database: the first fingerprint decides the length
+        if rng.random() < 0.5:          # also an empty database: the first fingerprint decides the length
             h.op_new(dk, d.level)
             targets.append(h.live[-1])
+            if rng.random() < 0.5:      # ... with property columns declared before the first addition
+                h.op_set_prop(h.live[-1], 'decl', [], ty=rng.choice(['int', 'str']))
         for tt in targets:
             dd = h.pool[tt]
             empty = dd.fp_num == 0
@@ -75,8 +78,9 @@ def run(ctx):
                     kinds = ['level']                      # position 0 defines the length of an empty database
                 else:
                     kinds = ['bits', 'level', 'level+bits']
-                has_cols = len(dd.props) > 0 if not empty else len(h.schema) > 0
-                if has_cols and not (empty and pos == 0):
+                declared = len(dd.props) > 0
+                has_cols = declared or (empty and len(h.schema) > 0)
+                if has_cols and not (empty and pos == 0 and not declared):
                     kinds.append('missing_prop')
                 for kind in kinds:
                     batch = h.batch(tt, n, own=rng.random() < 0.7)
@@ -102,6 +106,31 @@ def run(ctx):
             colnames = rng.sample([k for k, _ in h.schema] + ['u0', 'u1', 'u2'], ncols)
             cols = [(colnames[j], [rng.choice([0, 1, 2])] * (d.fp_num if j != pos else d.fp_num + rng.choice([-1, 1, 2]))) for j in range(ncols)]
             fault(h, 'update_props:len', pos, lambda: h.op_update_props(t, cols, tag='update_props_fault'))
+        # update_props(append=True): fresh columns mixed with extensions of stored columns, the faulty one at every position
+        if not d.props:
+            h.op_set_prop(t, 'ex0', list(range(d.fp_num)))
+        stored = list(d.props.keys())
+        for ncols in (1, 2, 3):
+            for pos in range(ncols):
+                for fkind in ('extend-nonempty', 'fresh-len'):
+                    cols = []
+                    for j in range(ncols):
+                        if j == pos:
+                            if fkind == 'extend-nonempty':
+                                k = rng.choice(stored)
+                                ty = h.col_type(t, k, [])
+                                cols.append((k, [dbgen.rand_props(rng, [(k, ty)])[0][1] for _ in range(rng.choice([1, 2, d.fp_num]))]))
+                            else:
+                                cols.append(('w%d' % j, [1] * (d.fp_num + rng.choice([-1, 1, 2]))))
+                        else:
+                            free = [x for x in stored if x not in [c[0] for c in cols]]
+                            if j == 0 or rng.random() < 0.5 or not free:
+                                cols.append(('w%d' % j, [rng.choice([0, 1, 2])] * d.fp_num))      # good fresh column
+                            else:
+                                cols.append((rng.choice(free), []))                                # good: extended by nothing
+                    if len(set(k for k, _ in cols)) < len(cols):
+                        continue
+                    fault(h, 'update_props:append:' + fkind, pos, lambda: h.op_update_props(t, cols, tag='update_props_fault', append=True))
         # concatenation with one incompatible operand at every position
         aliens = {}
         r = h.op_as_type(t, rng.choice([k for k in dbgen.KINDS if k != dk]), True)
@@ -130,6 +159,8 @@ def run(ctx):
                 fault(h, 'concat:' + what_, pos, lambda: h.op_concat(hs, plus=(m == 2 and rng.random() < 0.3), tag='concat_fault'))
         # from_array with a property column of the wrong length
         fault(h, 'from_array:props-len', 0, lambda: h.op_from_array(dk, d.level, d.bits, False, dk, [[(0, 1)], [(1, 1)]], ['a', None], [('p', [1, 2, 3])]))
+        for nm in (['a'], ['a', None, 'b'], []):
+            fault(h, 'from_array:names-len', len(nm), lambda: h.op_from_array(dk, d.level, d.bits, False, dk, [[(0, 1)], [(1, 1)]], nm, []))
         hists['c16-%d' % i] = h
         if i < 3:
             lastf = [s for s in h.steps if s['tag'].endswith('_fault')]
@@ -143,7 +174,7 @@ def run(ctx):
     ctx.coverage['rule'] = ('one evaluation = one faulty operation (add with a wrong-length / wrong-level / both / property-less fingerprint at '
                             'every position of a batch of 1-5, on a filled and on an empty database; empty batch; set_prop / update_props with a '
                             'wrong-length column at every position; concat with an operand of other type / bits / level / property columns at every '
-                            'position of 2-4; from_array with a wrong-length column) applied at the end of a random base history; all are '
+                            'position of 2-4; update_props(append=True) mixing good fresh columns, stored columns extended by nothing and one faulty column (a stored column extended by values / a fresh column of wrong length) at every position of 1-3; from_array with a wrong-length column or a wrong number of names; property columns declared on an empty database before the first addition) applied at the end of a random base history; all are '
                             'non-trivial; distinct by (fault, position, operation literal). Each is checked twice: directly (raised; every live '
                             'database observably identical before/after: CSR buffers, names, name index, property arrays, db[i], ==) and against '
                             'the model (same exception class, same full state).')
